@@ -1,0 +1,27 @@
+//go:build verif
+
+// Package verifhook provides named yield points for the verification harness.
+package verifhook
+
+import "sync/atomic"
+
+// Handler is invoked on every Point() if set.
+type Handler func(name string)
+
+var handler atomic.Pointer[Handler]
+
+// Set installs (or with nil removes) the handler that is called at every yield point.
+func Set(h Handler) {
+	if h == nil {
+		handler.Store(nil)
+		return
+	}
+	handler.Store(&h)
+}
+
+// Point marks a named yield point.
+func Point(name string) {
+	if h := handler.Load(); h != nil {
+		(*h)(name)
+	}
+}
